@@ -51,7 +51,7 @@ fn main() {
                 "C18" => gen_basic::gen_c18(&mut rng, thorough, release),
                 "C07" => gen_basic::gen_c07(&mut rng, thorough),
                 "C06" => gen_basic::gen_c06(&mut rng, thorough),
-                "C03" => { let mut v = gen_basic::gen_c03(&mut rng, thorough); v.extend(gen_net2::gen_c03_net(&mut rng, thorough)); v },
+                "C03" => { let mut v = gen_basic::gen_c03(&mut rng, thorough); v.extend(gen_net2::gen_c03_net(&mut rng, thorough)); for f in [0usize, 1] { v.extend(gen_net2::gen_scripts(&mut rng, thorough, f, "c03")); } v },
                 "C02" => gen_net::gen_c02(&mut rng, thorough),
                 "C08" => gen_net::gen_c08(&mut rng, thorough),
                 "C01" => { let mut v = gen_net::gen_c01(&mut rng, thorough); for f in [0usize, 1, 3, 4] { v.extend(gen_net2::gen_scripts(&mut rng, thorough, f, "c01")); } v },
